@@ -7,3 +7,10 @@ package headers
 // Frame only: parsing writes the receiver's fields and fresh memory.
 //@ func (h *Authorization) Unmarshal
 //@   modifies fields(h), fresh
+
+// Frame of the Transport parser, used where Transports.Unmarshal calls it in a loop; its own
+// bounds and nil obligations are part of C09.
+//@ func (h *Transport) Unmarshal
+//@   opt safety-tag=C09
+//@   opt frame-tag=C09
+//@   modifies fields(h), fresh
